@@ -146,12 +146,29 @@ class Translator:
         cands.sort(key=lambda t: len(subterms([t])))
         return cands[:3]
 
-    def saturate(self, formulas, fuel, lemmas, local_lemmas):
-        """Ground facts implied by the definitions of the spec functions and by proved lemmas."""
+    def rec_index(self, spec):
+        """index of the parameter a spec function recurses on (first list / non-record datatype parameter)"""
+        r = getattr(spec, '_rec', None)
+        if r is None:
+            r = -1
+            for i, (_, sn) in enumerate(spec.args):
+                if sn in self.U.lists or (sn in self.U.datatypes and sn not in self.U.records):
+                    r = i
+                    break
+            spec._rec = r
+        return r
+
+    def saturate(self, formulas, fuel, lemmas, local_lemmas, max_instances=1500):
+        """Ground facts implied by the definitions of the spec functions and by proved lemmas.
+
+        Every application term has a level.  Terms of the VC have level 0.  Unfolding an application whose
+        recursion argument is constructor-headed ("collapsing": the definition reduces to one case) is free:
+        the terms of its instance keep the level.  Unfolding on an opaque argument costs one level; only
+        applications of level < fuel are unfolded that way.  Lemma instances keep the level of the trigger."""
         facts = []
-        unfolded = set()
+        level = {}
+        done = set()
         instantiated = set()
-        all_forms = list(formulas)
         lemma_specs = []
         for lem in lemmas:
             vs, body, trig = self.lemma_z3(lem)
@@ -159,62 +176,82 @@ class Translator:
         for i, (vs, body, trig) in enumerate(local_lemmas):
             lemma_specs.append(('local%d' % i, vs, body, trig or self.auto_triggers(vs, body)))
         rank_decls = {d.name(): (sn, d) for sn, d in getattr(self.U, 'rank', {}).items()}
-        ranked = set()
-        for rnd in range(fuel + 1):
-            terms = subterms(all_forms)
-            new = []
-            # 0. rank axioms (only when a rank term occurs)
-            if any(z3.is_app(t) and t.decl().name() in rank_decls and t.num_args() == 1 for t in terms.values()):
-                for t in terms.values():
-                    if not z3.is_app(t) or t.get_id() in ranked:
-                        continue
-                    if t.decl().name() in rank_decls and t.num_args() == 1 and t.decl().eq(rank_decls[t.decl().name()][1]):
-                        ranked.add(t.get_id())
-                        new.append(t >= 0)
-                    elif t.decl().kind() == z3.Z3_OP_DT_ACCESSOR:
-                        y = t.arg(0)
-                        sy, st = self.U.sort_name(y.sort()), self.U.sort_name(t.sort())
-                        if sy in self.U.rank and st in self.U.rank:
-                            ranked.add(t.get_id())
-                            S = y.sort()
-                            for ci in range(S.num_constructors()):
-                                for j in range(S.constructor(ci).arity()):
-                                    if S.accessor(ci, j).eq(t.decl()):
-                                        new.append(z3.Implies(S.recognizer(ci)(y), self.U.rank[st](t) < self.U.rank[sy](y)))
-            # 1. definitions (not in the last round: only lemma instances / axioms there)
-            for t in terms.values():
+        len_decls = {d.name(): (sn, d) for sn, d in self._len.items()}
+
+        def note(forms, lv):
+            fresh = []
+            for t in subterms(forms).values():
+                k = t.get_id()
+                if k not in level or level[k] > lv:
+                    if k not in level:
+                        fresh.append(t)
+                    level[k] = lv
+            return fresh
+
+        frontier = note(formulas, 0)
+        has_rank = None
+        count = 0
+        for rnd in range(40):
+            if not frontier or count > max_instances:
+                break
+            new_batches = []      # (formulas, level)
+            if has_rank is None or not has_rank:
+                has_rank = any(z3.is_app(t) and t.decl().name() in rank_decls for t in frontier) or bool(has_rank)
+            for t in frontier:
                 if not z3.is_app(t):
                     continue
+                k = t.get_id()
+                lv = level[k]
                 d = t.decl()
                 nm = d.name()
-                if d.kind() != z3.Z3_OP_UNINTERPRETED or t.num_args() == 0:
+                kind = d.kind()
+                if kind == z3.Z3_OP_DT_ACCESSOR and has_rank:
+                    y = t.arg(0)
+                    sy, st = self.U.sort_name(y.sort()), self.U.sort_name(t.sort())
+                    if sy in self.U.rank and st in self.U.rank:
+                        S = y.sort()
+                        for ci in range(S.num_constructors()):
+                            for j in range(S.constructor(ci).arity()):
+                                if S.accessor(ci, j).eq(t.decl()):
+                                    new_batches.append(([z3.Implies(S.recognizer(ci)(y), self.U.rank[st](t) < self.U.rank[sy](y))], lv))
                     continue
-                if t.get_id() in unfolded:
+                if kind != z3.Z3_OP_UNINTERPRETED or t.num_args() == 0 or k in done:
+                    continue
+                if nm in rank_decls and d.eq(rank_decls[nm][1]):
+                    done.add(k)
+                    new_batches.append(([t >= 0], lv))
+                    continue
+                if nm in len_decls and d.eq(len_decls[nm][1]):
+                    sn, ld = len_decls[nm]
+                    x = t.arg(0)
+                    collapsing = z3.is_app_of(x, z3.Z3_OP_DT_CONSTRUCTOR)
+                    done.add(k)
+                    new_batches.append(([t >= 0], lv))
+                    if collapsing or lv < fuel:
+                        new_batches.append(([t == z3.simplify(z3.If(self.U.is_nil(sn, x), 0, 1 + ld(self.U.tl(sn, x))))],
+                                            lv if collapsing else lv + 1))
                     continue
                 spec = self.spec_by_decl.get(nm)
                 if spec is not None and self._decls.get(nm) is not None and d.eq(self._decls[nm]):
-                    if rnd >= fuel:
-                        continue
-                    unfolded.add(t.get_id())
                     params, body = self.body_of(spec)
                     if params is None:
+                        done.add(k)
                         continue
-                    inst = z3.substitute(body, *zip(params, t.children()))
-                    new.append(t == z3.simplify(inst))
-                    continue
-                for sn, ld in self._len.items():
-                    if d.eq(ld):
-                        unfolded.add(t.get_id())
-                        x = t.arg(0)
-                        new.append(t >= 0)
-                        if rnd < fuel:
-                            new.append(t == z3.If(self.U.is_nil(sn, x), 0, 1 + ld(self.U.tl(sn, x))))
-            # 2. lemma instances by trigger matching
+                    ri = self.rec_index(spec)
+                    collapsing = ri >= 0 and z3.is_app_of(t.arg(ri), z3.Z3_OP_DT_CONSTRUCTOR)
+                    if not collapsing and lv >= fuel:
+                        continue          # may be unfolded later if its level drops
+                    done.add(k)
+                    inst = z3.simplify(z3.substitute(body, *zip(params, t.children())))
+                    new_batches.append(([t == inst], lv if collapsing else lv + 1))
+                    count += 1
+            # lemma instances by trigger matching over the frontier
             for (lname, vs, body, trigs) in lemma_specs:
                 ids = {v.get_id() for v in vs}
                 for pat in trigs:
-                    for t in terms.values():
-                        if not z3.is_app(t) or not t.decl().eq(pat.decl()):
+                    pd = pat.decl()
+                    for t in frontier:
+                        if not z3.is_app(t) or not t.decl().eq(pd):
                             continue
                         b = {}
                         if self.match(pat, t, ids, b) and len(b) == len(ids):
@@ -222,11 +259,12 @@ class Translator:
                             if key in instantiated:
                                 continue
                             instantiated.add(key)
-                            new.append(z3.substitute(body, *[(v, b[v.get_id()]) for v in vs]))
-            if not new:
-                break
-            facts.extend(new)
-            all_forms.extend(new)
+                            new_batches.append(([z3.substitute(body, *[(v, b[v.get_id()]) for v in vs])], level[t.get_id()]))
+                            count += 1
+            frontier = []
+            for forms, lv in new_batches:
+                facts.extend(forms)
+                frontier.extend(note(forms, lv))
         return facts
 
     def refine_known_ctors(self, forms):
